@@ -101,7 +101,9 @@ def prop_C12(tier, seed, rng):
     s1, g1 = tlc_scripts("GenPartTree", "GenPartTree.cfg" if quick else "GenPartTreeDeep.cfg", rng,
                          4000 if quick else 60000)
     s2 = part_gen.generate("c12", 800 if quick else 15000, seed + 1)
-    fams = [Family("tlc", "part", "PartTrace", s1, g1), Family("shaped", "part", "PartTrace", s2)]
+    s3 = part_gen.generate("c12inner", 300 if quick else 6000, seed + 12)
+    fams = [Family("tlc", "part", "PartTrace", s1, g1), Family("shaped", "part", "PartTrace", s2),
+            Family("innernodes", "part", "PartTrace", s3)]
     return design, fams, ["C12_"], dict(
         rule="scripts = (a) one per transition of the bounded PartTree.tla state graph, (b) shaped linear histories "
              "with >=1 watch per transaction (Get on present/absent keys, Prefix incl. inside compressed paths, "
@@ -332,13 +334,13 @@ PROPS = {
                     "non-unique LPM indexes; snapshots are retained and the same queries re-issued after later "
                     "committed/aborted/pending transactions and graveyard collection; non-trivial = script re-queries "
                     "a retained snapshot after a later write transaction", _nt_requery,
-                    extra_modes=(("c07", 100, 2000),)),
+                    extra_modes=(("c07", 100, 2000), ("lpmshared", 150, 3000))),
     "C02": _db_prop("C02", "c02", 300, 6000,
                     "histories in which about half of the write transactions (with writes on every index kind, "
                     "Changes(), initializer registration, InsertWatch) abort; the complete query battery, revisions, "
                     "channel bits and later transactions are compared with the pre-transaction state; non-trivial = "
                     "script contains an aborted transaction followed by the battery", _nt_abort,
-                    extra_modes=(("c07", 150, 3000), ("c19", 100, 2000), ("sched", 150, 3000))),
+                    extra_modes=(("c07", 150, 3000), ("c19", 100, 2000), ("lpmshared", 100, 2000), ("sched", 150, 3000))),
     "C03": _db_prop("C03", "c03", 400, 8000,
                     "Insert/InsertWatch/Modify/Delete/DeleteAll/CompareAndSwap/CompareAndDelete with guards "
                     "{current, stale, future}, missing and present objects, tables not held, finished transactions; "
@@ -348,12 +350,12 @@ PROPS = {
                     "complete query battery (Get/List/Prefix/LowerBound/All/NumObjects/ByRevision on primary, unique, "
                     "multi-key, LPM unique/non-unique indexes; keys empty, prefixes of one another, 0x00/0x01/0xff) on "
                     "fresh snapshots and inside write transactions after key-set changing updates; non-trivial = >= 2 writes",
-                    _nt_write),
+                    _nt_write, extra_modes=(("lpmshared", 100, 2000),)),
     "C06": _db_prop("C06", "c06", 300, 6000,
                     "watch channels of every query kind on every index kind taken from fresh snapshots before each "
                     "transaction plus InsertWatch; channel bits sampled at hand-out and after every commit/abort; "
                     "non-trivial = a tracked channel exists when a transaction ends", _nt_watch,
-                    extra_modes=(("c07", 100, 2000), ("kf_l", 20, 100), ("sched", 120, 2500))),
+                    extra_modes=(("c07", 100, 2000), ("kf_l", 20, 100), ("c06inner", 150, 3000), ("sched", 120, 2500))),
     "C07": _db_prop("C07", "c07", 400, 8000,
                     "up to 4 change iterators created at arbitrary points (also in aborted transactions); Next with "
                     "fresh/retained snapshots and write transactions holding uncommitted changes of the table, full and "
